@@ -462,8 +462,16 @@ fn bounded_program_case(st: &mut (Option<Impl>, ReplHighlighter), acc: &mut Acc,
             for _ in 0..40 {
                 match vm.run_count(5_000) {
                     Ok(None) => continue,
-                    Ok(Some(c)) => return Some(format!("{:#}", c).len()),
-                    Err(e) => return Some(format!("{}", e).len()),
+                    Ok(Some(c)) => {
+                        // a host that asks once more after the end is told so (an error), it does not take the library down
+                        let _ = vm.run_count(10).map(|c| c.map(|c| format!("{:#}", c).len())).map_err(|e| format!("{}", e).len());
+                        return Some(format!("{:#}", c).len());
+                    }
+                    Err(e) => {
+                        // ... nor one that asks once more after a failure
+                        let _ = vm.run_count(10).map(|c| c.map(|c| format!("{:#}", c).len())).map_err(|e| format!("{}", e).len());
+                        return Some(format!("{}", e).len());
+                    }
                 }
             }
             None
@@ -806,7 +814,7 @@ pub fn run(ctx: &Ctx) -> i32 {
     }
     rep.exhaustive = !truncated;
     rep.rule = format!(
-        "(a) every concatenation of <= {} lexemes over {:?} ({} texts), plus {} literal-family texts (character / string-escape / radix prefixes x 27 hex payloads around the surrogate range, U+10FFFF, 2^32 and 2^64 x 6 terminators; 16 character names; 8 numeric prefixes x 9 mantissas x 12 exponents up to e5000; ratios of 9 x 13 parts at the 32- and 64-bit limits with every sign placement, as literals under 5 prefixes and through string->number; each bare, in a list, in a dotted pair and inside a string), plus {} malformed programs ({} well-formed seed forms covering every special form, each with one sub-datum at a time replaced by each of {} junk data or removed; at top level, in a procedure body, in a defined procedure and next to an internal definition), through lex::scan, parse::parse_text, Vm::eval_text (datum by datum), prepare_eval + run_count(3), and ReplHighlighter::highlight / highlight_check at every cursor; (b) every global procedure of Vm::global_symbols() (so a new builtin is picked up automatically) at every arity 0..{} with arguments from a {}-value boundary palette (thorough: arity 3 from every second palette value) (empty / one-element / shared / improper containers; 0, -1, i32 and i64 extremes +-1, 2^64, 2^200, rationals at the 32-bit limits, +-0.0, +-inf, NaN, 1e308; #\\nul, non-ASCII characters and strings; procedures, a continuation, the unspecified value, procedures and continuations smuggled into data, nesting 60, a 1000-element list) and at arities up to {} from one value per kind = {} calls, in isolated workers (address-space cap, watchdog); allocation sizes above 10^6 are excluded as the property states; (c) {} cyclic structures x {} uses (list? length equal? display write, and as the value of an evaluation); (d) 42 programs whose macro expansion never finishes (self-, mutually and exponentially recursive transformers in six positions): an error or continued expansion is accepted, an abort or panic is not. Oracle: outcome is a value or an error, the same call as the middle operand of (list 'left-operand <call> 'right-operand) leaves its neighbours in place, the error (and value) can be rendered as text, and the same VM then evaluates (+ 1 2) to 3. Non-trivial = a case that satisfied the oracle.",
+        "(a) every concatenation of <= {} lexemes over {:?} ({} texts), plus {} literal-family texts (character / string-escape / radix prefixes x 27 hex payloads around the surrogate range, U+10FFFF, 2^32 and 2^64 x 6 terminators; 16 character names; 8 numeric prefixes x 9 mantissas x 12 exponents up to e5000; ratios of 9 x 13 parts at the 32- and 64-bit limits with every sign placement, as literals under 5 prefixes and through string->number; each bare, in a list, in a dotted pair and inside a string), plus {} malformed programs ({} well-formed seed forms covering every special form, each with one sub-datum at a time replaced by each of {} junk data or removed; at top level, in a procedure body, in a defined procedure and next to an internal definition), through lex::scan, parse::parse_text, Vm::eval_text (datum by datum), prepare_eval + run_count(3) (with one more run_count after the value or the failure, which must be answered, not panic), and ReplHighlighter::highlight / highlight_check at every cursor; (b) every global procedure of Vm::global_symbols() (so a new builtin is picked up automatically) at every arity 0..{} with arguments from a {}-value boundary palette (thorough: arity 3 from every second palette value) (empty / one-element / shared / improper containers; 0, -1, i32 and i64 extremes +-1, 2^64, 2^200, rationals at the 32-bit limits, +-0.0, +-inf, NaN, 1e308; #\\nul, non-ASCII characters and strings; procedures, a continuation, the unspecified value, procedures and continuations smuggled into data, nesting 60, a 1000-element list) and at arities up to {} from one value per kind = {} calls, in isolated workers (address-space cap, watchdog); allocation sizes above 10^6 are excluded as the property states; (c) {} cyclic structures x {} uses (list? length equal? display write, and as the value of an evaluation); (d) 42 programs whose macro expansion never finishes (self-, mutually and exponentially recursive transformers in six positions): an error or continued expansion is accepted, an abort or panic is not. Oracle: outcome is a value or an error, the same call as the middle operand of (list 'left-operand <call> 'right-operand) leaves its neighbours in place, the error (and value) can be rendered as text, and the same VM then evaluates (+ 1 2) to 3. Non-trivial = a case that satisfied the oracle.",
         nlex, LEXEMES, n_texts, lits.len(), mal.len(), SEEDS.len(), JUNK.len(), ctx.tier.pick(2, 3), BOUNDARY.len(), ctx.tier.pick(3, 5), nb, CYCLIC.len(), CYCLIC_USES.len()
     );
     rep.extra("builtin_calls", json!(nb));
